@@ -4,7 +4,7 @@ from __future__ import annotations
 from pyvc.run import run_t1, replay_t1
 from vlib.result import Ctx, PropResult
 
-ALL_MODULES = ["source_map", "compiler_utils", "meta_attributes", "decompiler_writer", "resolver", "remover", "compiler_small", "macro", "cli", "ssbscript_listener", "strip_last_label"]
+ALL_MODULES = ["source_map", "compiler_utils", "meta_attributes", "decompiler_writer", "resolver", "remover", "compiler_small", "macro", "cli", "ssbscript_listener", "strip_last_label", "label_finalizer"]
 # properties whose check = bounded stand-ins (props/Cxx.py) + the deductive layer over the contracts tagged with them
 T1_PROPS = {"C01", "C02", "C03", "C04", "C05", "C06", "C07", "C08", "C09", "C10", "C15"}
 
